@@ -339,15 +339,16 @@ theorem record_conflict_free (c : ACtx) (d u : Doc) (afs : List Doc) (d' : Doc)
   Apply_cf c d u afs d' ch h
 
 /-- `changes_hold_partial`: for the operators that perform a single write
-    (`$set $setOnInsert $inc $mul $min $max $currentDate $bit`) applied at a canonical path: either
+    (`$set $setOnInsert $inc $mul $min $max $currentDate $bit $pull $pullAll $addToSet`) applied at
+    a canonical path: either
     nothing was recorded, or exactly one entry (path, x) with x present was appended and the result
     document holds x at that path.
     Full statement (NOT provable, false in the code): "after a successful Apply every recorded
     (path, value) satisfies `Get result path = value`".  Witnesses (confirmed on the Go code):
     `{$set: {"a.1": 1, "a.01": 2}}` on `{a:[0,0]}` records a.1 = 1 but the result has a.1 = 2
     (numeral aliases are not detected as a conflict); `{$set: {"a.+1": 1}}` records "a.+1" = 1
-    which reads Missing.  Array operators ($push/$pop/$pull/$pullAll/$addToSet/$rename) are not
-    covered here. -/
+    which reads Missing.  `$pop` is `pop_change_holds`, `$unset` is `unset_change_holds`; `$push`
+    (per-element records) and `$rename` (two records) are not covered. -/
 theorem changes_hold_partial (c : ACtx) (s s1 : AState) (op path : String) (v : V)
     (hop : op ∈ scalarOps) (hp : canonPath (splitPath path) = true)
     (h : applyOp c s op path v = .ok s1) :
@@ -356,6 +357,12 @@ theorem changes_hold_partial (c : ACtx) (s s1 : AState) (op path : String) (v : 
   · exact .inl e
   · obtain ⟨h1, h2, h3⟩ := putRec_holds hx
     exact .inr ⟨x, h1, h2, h3 hp⟩
+
+/-- `$pop`: either nothing is recorded, or one entry whose value is what the path reads in the result. -/
+theorem pop_change_holds (c : ACtx) (s s1 : AState) (path : String) (v : V)
+    (h : applyOp c s "$pop" path v = .ok s1) :
+    s1 = s ∨ ∃ x, s1.changed = s.changed ++ [(path, x)] ∧ Get s1.doc path = x :=
+  pop_holds c s s1 path v h
 
 /-- `$unset` (no duplicate keys): either nothing is recorded, or (path, Missing) is recorded and
     the path reads Missing (field) or null (array element) in the result. -/
@@ -370,6 +377,8 @@ section Tests
 #guard okChanges (Apply ctx0 docB [("$inc", .doc [("n", .i64 1)]), ("$set", .doc [("a.1", .str "s")])] [])
   == some [("n", .i64 6), ("a.1", .str "s")]
 #guard (okDoc (Apply ctx0 docB [("$inc", .doc [("n", .i64 1)])] [])).map (fun d => Get d "n") == some (.i64 6)
+#guard okChanges (Apply ctx0 docB [("$pop", .doc [("a", .i32 1)])] []) == some [("a", .arr [.i32 1, .i64 2, .f64 0x4008000000000000])]
+#guard okChanges (Apply ctx0 docB [("$pull", .doc [("a", .i32 1)])] []) == some [("a", .arr [.i64 2, .f64 0x4008000000000000])]
 -- WITNESS (changes do not hold): numeral aliases — recorded a.1 = 1, result a.1 = 2
 #guard okChanges (Apply ctx0 [("a", .arr [.i32 0, .i32 0])] [("$set", .doc [("a.1", .i32 1), ("a.01", .i32 2)])] [])
   == some [("a.1", .i32 1), ("a.01", .i32 2)]
